@@ -3,10 +3,9 @@ from vf import Check, Stream, TieBroken, run_sharded, BUILD
 sys.path.insert(0, os.path.join(os.path.dirname(os.path.abspath(__file__)), '..', 'gen'))
 import tables_callback
 
-# arities (number of signal arguments) whose emit / connect / disconnect templates get the deep exhaustive streams in the
-# thorough tier; in both tiers every arity 0..8 gets the quick-size exhaustive streams.  An arity whose template differs
-# from the common one (translator tie) is always added to the deep set.
-DEEP_ARITIES = [0, 1, 3, 8]
+# every arity 0..8 (number of signal arguments) gets the exhaustive streams, at the quick sizes in the quick tier and at the
+# deep sizes in the thorough tier; an arity whose template differs from the common one (translator tie) is searched first
+DEEP_ARITIES = list(range(9))
 
 
 def with_arity(cases, ar):
@@ -38,7 +37,7 @@ class C12(Check):
     per_case_timeout = 10
     technique = ('machine-checked proof in Coq about a hand-written Gallina model; model tied to the code by an '
                  'extracted-model vs implementation correspondence check')
-    level_text = ('Coq theorems (19, closed under the global context) about the Gallina model of Callback (slot lists with '
+    level_text = ('Coq theorems (23, closed under the global context) about the Gallina model of Callback (slot lists with '
                   'connected/connecting/disconnected states, dirty flag, activation chain with invalidation, both search loops, '
                   'both destructor loops, a liveness flag on every object) and the reference object (live connections with serial '
                   'numbers, watermark of the outermost emission, one cursor per emission), for ALL histories of '
@@ -54,11 +53,22 @@ class C12(Check):
                   'characterised by C12_turn_sound/oldest/none_complete); (3) after the outermost emission no '
                   'disconnected/connecting entry, activation or dirty flag is left (NoResidue in '
                   'C12_bookkeeping_after_every_history); fuel: every history completes from some fuel on and finished runs do not '
-                  'depend on fuel (C12_enough_fuel_exists, C12_fuel_irrelevant_*). The model is tied to the code by running the '
+                  'depend on fuel (C12_enough_fuel_exists, C12_fuel_irrelevant_*); (4) node-level safety of the representation: no node is '
+                  'unlinked from a signal\'s slot list while an emission of that signal is in progress - each of the seven library '
+                  'primitives only appends or re-marks entries then, except ~Emitter of that emitter and the end of the outermost '
+                  'emission (C12_no_unlink_while_emitting), and whatever a slot does, on return the activation chain has its length '
+                  'and every old node its place (C12_slot_keeps_nodes, C12_emission_keeps_nodes), which is what makes the model\'s '
+                  '"iterator = index" stand for the C++ list iterators. The model is tied to the code by running the '
                   'extracted model (a tracing interpreter proved equal to the proved one, C12_trace_erasure), the extracted '
                   'reference object and the ASan/UBSan build of the working tree on the same scripts and comparing invocation '
                   'logs, both sides\' lists, dirty/activation flags after every top-level operation and the emitting signal\'s slot '
-                  'list with states, dirty flag and invalidated flags of the activation chain at every slot entry and exit.')
+                  'list with states, dirty flag and invalidated flags of the activation chain at every slot entry and exit; signals of '
+                  'every arity 0..8 are driven (all nine emit/connect/disconnect templates execute, arguments echoed and checked by '
+                  'the slots), emitter and listener classes carry a first base so that the Listener/Emitter sub-objects sit at a '
+                  'non-zero offset, and on every run the nine hand-copied emit, connect, disconnect and MemberFuncPtr<N> definitions '
+                  'of Callback.hpp are re-read and compared token by token with the one template the model mirrors written out for '
+                  'each arity (gen/tables_callback.py; a difference is reported naming the overload and the streams of that arity '
+                  'are searched first for a failing input).')
     level_note = ('Trusted: Coq kernel, the reference object (CallbackSpec.v: the property text as an executable object), extraction + '
                   'OCaml driver, harness, generators. Validated by correspondence only (not proved): that CallbackModel.v mirrors '
                   'Callback.hpp/Callback.cpp; the iterator position inside emit() is not observable from the harness (only its '
@@ -67,10 +77,19 @@ class C12(Check):
                   'forever in the library as well). Clients never hand a destroyed emitter/listener to the library (such script '
                   'actions are skipped on both sides). Maps keyed by pointer are modelled as maps keyed by object id; the '
                   'destructor loops are modelled in id order (their iterations touch disjoint data). Objects are not re-created at '
-                  'the address of a destroyed one. disconnect on a listener that has no entry for the emitter dereferences the '
-                  'map\'s end item (an empty list member): modelled as a no-op, exercised by the edge stream. Only the 0-argument '
-                  'emit template is driven (the nine templates are textual copies).')
-    rule = ('cases = programs over 2-3 emitters x 2-3 listeners x up to 4 slots x 1-2 signals whose slots run scripted actions '
+                  'the address of a destroyed one. Latent defect of the code that the model encodes as behaviour and the check cannot '
+                  'exhibit: Callback::disconnect on a listener that has no map entry for the emitter (Callback.cpp:147-148) '
+                  'dereferences slotData.end(); this is harmless only because Map keeps a default-constructed List in its end item, '
+                  'so the loop over it is empty; no sanitizer reports it and no observation differs, so it is not a violation of '
+                  'the property text and is modelled as a no-op (exercised by the edge stream); a guard `if(it2 == end()) return;` '
+                  'would remove the reliance on that Map internal. The nine emit/connect/disconnect templates: all are executed '
+                  '(arities 0..8) and textually tied to one template by the translator; the argument types used are int and long by '
+                  'value only (no references, no class-type arguments with copy constructors). The harness classes are not '
+                  'polymorphic (the library calls the slot through a pointer of the EMITTER\'s class type cast from void*, which '
+                  'UBSan\'s vptr check would flag for polymorphic client classes independently of this property).')
+    rule = ('cases = programs over 2-3 emitters x 2-3 listeners x up to 4 slots x 1-2 signals (each signal index with a chosen '
+            'number of arguments 0..8; the exhaustive streams exh/dcd/nest are generated once per arity, nest with two different '
+            'arities on one emitter; an arity flagged by the translator tie is run first) whose slots run scripted actions '
             '(connect/disconnect/emit/destroy listener/destroy emitter, also of themselves), nesting depth <= 4; stream exh = all '
             'action sequences of length <= 2 (quick) / <= 3 (thorough) over a 12-action alphabet executed by a slot inside one '
             'emission, under 2 surrounding configurations, followed by re-emission and destruction of every object (programs whose emission tree exceeds 200 slot invocations are dropped, here and in nest/edge/random); stream dcd = '
